@@ -101,29 +101,55 @@ class Ref:
 # the explored world
 # ------------------------------------------------------------------------------------------------
 
+ROUTES = ("wired", "service", "service+stats")
+
+
+def find_tunnel_endpoint(endpoint):  # noqa: ANN001, ANN201
+    """The TunnelEndpoint somewhere in a stack of endpoint wrappers (None if there is none)."""
+    seen = 0
+    while endpoint is not None and seen < 8:
+        if isinstance(endpoint, TunnelEndpoint):
+            return endpoint
+        endpoint = vars(endpoint).get("endpoint")
+        seen += 1
+    return None
+
+
 class C07World(simnet.World):
-    def __init__(self, seed: int) -> None:
+    def __init__(self, seed: int, route: str = "wired") -> None:
+        """
+        route: how node N is put together.  "wired": the harness stacks TunnelEndpoint(SimEndpoint) and constructs the
+        overlays itself.  "service" / "service+stats": N is constructed by ipv8_service.IPv8 from a configuration that
+        lists a TunnelCommunity, the anonymized overlay (initialize: anonymize) and the plain overlay, with the SimEndpoint
+        as endpoint_override and enable_statistics False / True - the endpoint stack is then the deployment's own.
+        """
         super().__init__(("c07", seed))
         idx = fixtures.rotate(seed, 1 + len(ROLES))
+        self.route = route
         self.ov: dict[str, TunnelCommunity] = {}
         self.flags: dict[str, set] = {"N": set(RELAY), **{k: set(v) for k, v in ROLES.items()}}
 
         n = self.add_node("N", idx[0])
         self.n = n
         self.raw = n.endpoint                          # the socket: what leaves here leaves from N's own address
-        self.tep = TunnelEndpoint(self.raw)
-        self.tc = self.ov["N"] = n.add_overlay(TunnelCommunity, self._tunnel_settings(RELAY), endpoint=self.tep)
-        # TunnelEndpoint does not forward remove_listener, so on this endpoint the TunnelCommunity stays registered
-        # next to its crypto endpoint and would also interpret every *still encrypted* cell (a C11 matter).  That
-        # makes control flow depend on ciphertext bytes the Rust RNG picks; the receive table is normalised to what
-        # setup_tunnels() intends.  The send path (the subject of C07) is untouched.
+        if route == "wired":
+            self.app_ep = TunnelEndpoint(self.raw)     # what the overlays (and the application) are handed
+            self.tc = n.add_overlay(TunnelCommunity, self._tunnel_settings(RELAY), endpoint=self.app_ep)
+            anon_settings = AnonOverlay.settings_class()
+            anon_settings.anonymize = True
+            self.anon = n.add_overlay(AnonOverlay, anon_settings, endpoint=self.app_ep)
+            self.plain = n.add_overlay(PlainOverlay, endpoint=self.app_ep)
+        else:
+            self.tc, self.anon, self.plain = n.run(self._via_service, n, route == "service+stats")
+        self.ov["N"] = self.tc
+        # the TunnelEndpoint object inside the stack (white box: queue, settings and attachment are read from it);
+        # application-level calls (set_anonymity, set_tunnel_community) go to app_ep, as an embedding application would
+        self.tep = find_tunnel_endpoint(self.app_ep)
+        assert self.tep is not None, "an overlay asked for anonymity but the node has no TunnelEndpoint at all"
+        # Keep the TunnelCommunity from being registered next to its crypto endpoint on the raw socket (older trees did
+        # not forward TunnelEndpoint.remove_listener: a C11 matter); otherwise control flow depends on ciphertext bytes.
         self.raw.remove_listener(self.tc)
-        anon_settings = AnonOverlay.settings_class()
-        anon_settings.anonymize = True
-        self.anon = n.add_overlay(AnonOverlay, anon_settings, endpoint=self.tep)
-        # instances of the anonymized overlay class on N (same community id, hence same prefix); None = not loaded
         self.inst: dict[int, AnonOverlay | None] = {1: self.anon, 2: None}
-        self.plain = n.add_overlay(PlainOverlay, endpoint=self.tep)
         for i, (name, flags) in enumerate(ROLES.items()):
             node = self.add_node(name, idx[1 + i])
             self.ov[name] = node.add_overlay(TunnelCommunity, self._tunnel_settings(flags))
@@ -147,7 +173,37 @@ class C07World(simnet.World):
         self.prefix_of = {"anon": self.a_prefix, "plain": self.p_prefix, "tunnel": self.t_prefix, "unknown": UNKNOWN_PREFIX}
         self.dest_of = {"anon": tuple(DEST_ANON), "plain": tuple(DEST_PLAIN)}
         self.max_queue = 0
+        self.removal_requested: set[int] = set()       # circuit ids somebody called remove_circuit for (reference)
         self._wrap_send_data()
+        self._wrap_remove_circuit()
+
+    def _via_service(self, node, statistics: bool):  # noqa: ANN001, ANN202
+        """Node N as ipv8_service.IPv8 builds it (mirrors mc.tunnelworld.TunnelWorld._make_via, three overlays)."""
+        import base64  # noqa: PLC0415
+
+        from ipv8_service import IPv8  # noqa: PLC0415
+
+        def entry(cls, **init) -> dict:  # noqa: ANN001, ANN003
+            return {"class": cls.__name__, "key": "k", "walkers": [], "bootstrappers": [], "initialize": init, "on_start": []}
+
+        configuration = {
+            "logger": {"level": "CRITICAL"}, "walker_interval": 0.5,
+            "keys": [{"alias": "k", "file": "", "generation": "curve25519",
+                      "bin": base64.b64encode(fixtures.private_bin(node.key_index)).decode()}],
+            "overlays": [entry(TunnelCommunity, peer_flags=set(RELAY), min_circuits=0, max_circuits=0),
+                         entry(AnonOverlay, anonymize=True), entry(PlainOverlay)]}
+        ipv8 = IPv8(configuration, endpoint_override=self.raw, enable_statistics=statistics,
+                    extra_communities={"AnonOverlay": AnonOverlay, "PlainOverlay": PlainOverlay})
+        self.ipv8 = ipv8
+        self.app_ep = ipv8.endpoint
+        for o in ipv8.overlays:
+            o.my_peer.address = node.address
+            o.my_estimated_wan = node.address
+            o.my_estimated_lan = node.address
+            node.overlays.append(o)
+        node.my_peer = ipv8.overlays[0].my_peer
+        node.network = ipv8.network
+        return ipv8.overlays
 
     @staticmethod
     def _tunnel_settings(flags):  # noqa: ANN001, ANN205
@@ -166,6 +222,7 @@ class C07World(simnet.World):
             self.calls.append({
                 "target": tuple(target), "dest": tuple(dest_address), "data": bytes(data),
                 "configured_hops": self.tep.hops,
+                "being_removed": circuit_id in self.removal_requested,
                 "circuit": None if c is None else self.circuit_view(c),
                 "first_hop": None if c is None or not c.hops else tuple(c.hop.address),
             })
@@ -173,6 +230,17 @@ class C07World(simnet.World):
             return inner(target, circuit_id, dest_address, source_address, data)
 
         tc.send_data = send_data
+
+    def _wrap_remove_circuit(self) -> None:
+        """Reference knowledge: from the moment anybody asks for a circuit's removal it is on its way out, not ready."""
+        tc, inner = self.tc, self.tc.remove_circuit
+
+        def remove_circuit(circuit_id, *args, **kwargs):  # noqa: ANN001, ANN002, ANN003, ANN202
+            if circuit_id in tc.circuits:
+                self.removal_requested.add(circuit_id)
+            return inner(circuit_id, *args, **kwargs)
+
+        tc.remove_circuit = remove_circuit
 
     def node_of(self, hop) -> str:  # noqa: ANN001
         return self.by_key.get(hop.peer.public_key.key_to_bin(), "?")
@@ -228,7 +296,7 @@ class C07World(simnet.World):
         """A second instance of the anonymized overlay class on the same TunnelEndpoint (the reload pattern)."""
         settings = AnonOverlay.settings_class()
         settings.anonymize = True
-        self.inst[2] = self.n.add_overlay(AnonOverlay, settings, endpoint=self.tep)
+        self.inst[2] = self.n.add_overlay(AnonOverlay, settings, endpoint=self.app_ep)
         self.ref.asked["anon"] = True          # the new instance asked for anonymity (Community.__init__ registers it)
 
     def unload(self, inst: int) -> None:
@@ -244,7 +312,7 @@ class C07World(simnet.World):
         if which == "plain":
             self.ref.asked["plain"] = enable
             self.ref.ever_asked["plain"] |= enable
-        self.tep.set_anonymity(self.prefix_of[which], enable)
+        self.app_ep.set_anonymity(self.prefix_of[which], enable)
 
     def peer_of(self, target: str):  # noqa: ANN201
         p = self.n.network.get_verified_by_public_key_bin(self.nodes[target].my_peer.public_key.key_to_bin())
@@ -279,8 +347,9 @@ class Model(core.BfsModel):
     The computation is the same as with plain replay (`fork=False`, used by --replay and by the self-check in run()).
     """
 
-    def __init__(self, seed: int, alphabet: list, max_circuits: int = 99, fork: bool = False) -> None:
+    def __init__(self, seed: int, alphabet: list, max_circuits: int = 99, fork: bool = False, route: str = "wired") -> None:
         self.seed = seed
+        self.route = route
         self.alphabet = [tuple(e) for e in alphabet]
         self.max_circuits = max_circuits
         self.fork = fork and hasattr(os, "fork")
@@ -288,10 +357,11 @@ class Model(core.BfsModel):
         self._cached_hist: tuple | None = None
 
     def params(self) -> dict:
-        return {"seed": self.seed, "alphabet": [list(e) for e in self.alphabet], "max_circuits": self.max_circuits}
+        return {"seed": self.seed, "route": self.route, "alphabet": [list(e) for e in self.alphabet],
+                "max_circuits": self.max_circuits}
 
     def initial(self) -> C07World:
-        return C07World(self.seed)
+        return C07World(self.seed, self.route)
 
     def replay_build(self, hist: tuple) -> C07World:
         w = self.initial()
@@ -441,12 +511,12 @@ class Model(core.BfsModel):
         elif k == "tick":
             w.run_for(TICK)
         elif k == "detach":
-            w.tep.set_tunnel_community(None)
+            w.app_ep.set_tunnel_community(None)
         elif k == "attach":
-            w.tep.set_tunnel_community(w.tc, hops=ev[1])
+            w.app_ep.set_tunnel_community(w.tc, hops=ev[1])
         elif k == "toggle":
             w.ref.asked["anon"] = not w.ref.asked["anon"]
-            w.tep.set_anonymity(w.a_prefix, w.ref.asked["anon"])
+            w.app_ep.set_anonymity(w.a_prefix, w.ref.asked["anon"])
         elif k == "setp":
             w.set_other(ev[1], bool(ev[2]))
         elif k == "sa2":
@@ -494,7 +564,8 @@ class Model(core.BfsModel):
             circuits.append((v["state"], c.ctype, v["goal_hops"], v["hops"], tuple(v["exit_flags"]), v["exit"], v["first"],
                              c.unverified_hop is not None,
                              c.required_exit is not None and w.by_key.get(c.required_exit.public_key.key_to_bin()),
-                             round(now - c.last_activity, 3), tc.request_cache.has(RetryRequestCache, c.circuit_id)))
+                             round(now - c.last_activity, 3), tc.request_cache.has(RetryRequestCache, c.circuit_id),
+                             c.circuit_id in w.removal_requested))
         tables = []
         for name in ("N", *ROLES):
             o = w.ov[name]
@@ -572,6 +643,8 @@ class Model(core.BfsModel):
                 why = "unknown-circuit"
             elif cv["state"] != CIRCUIT_STATE_READY:
                 why = f"circuit-{cv['state'].lower()}"
+            elif c["being_removed"]:
+                why = "circuit-being-removed"
             elif cv["goal_hops"] != c["configured_hops"] or cv["hops"] != c["configured_hops"]:
                 why = "wrong-length"
             elif PEER_FLAG_EXIT_IPV8 not in cv["exit_flags"] or PEER_FLAG_EXIT_IPV8 not in cv["exit_true_flags"]:
@@ -614,7 +687,7 @@ class Model(core.BfsModel):
         w.begin()
         for which in ("tunnel", "unknown", "plain"):
             if which != "plain" or not w.ref.asked["plain"]:
-                w.tep.set_anonymity(w.prefix_of[which], False)
+                w.app_ep.set_anonymity(w.prefix_of[which], False)
         w.send_plain()
         for i, overlay in w.inst.items():
             if overlay is not None:
@@ -689,7 +762,7 @@ def run_history(seed: int, history: list) -> tuple[list, list, dict]:
 
 def self_check(model: Model, histories: list) -> None:
     """The fork shortcut must give exactly what a plain replay gives (digest and observation)."""
-    plain = Model(model.seed, model.alphabet, model.max_circuits, fork=False)
+    plain = Model(model.seed, model.alphabet, model.max_circuits, fork=False, route=model.route)
     index = {e: i for i, e in enumerate(model.alphabet)}
     for h in histories:
         if not h:
